@@ -270,9 +270,15 @@ def _run_real(case):
                 ev.append([7, self.eqv, key[0], list(key[1]), _sid(value), ctx.cur_parent])
                 super().__setitem__(key, value)
 
+            # event 8 = a key really leaves the store (by pop or by del)
             def pop(self, key, *default):
-                ev.append([8, key[0], list(key[1])])
+                if key in self:
+                    ev.append([8, key[0], list(key[1])])
                 return super().pop(key, *default)
+
+            def __delitem__(self, key):
+                ev.append([8, key[0], list(key[1])])
+                super().__delitem__(key)
 
         class LogRDict(RecomputingDict):
             eqv = 0
@@ -281,8 +287,12 @@ def _run_real(case):
                 ev.append([7, self.eqv, key[0], list(key[1]), _sid(value), ctx.cur_parent])
                 super().__setitem__(key, value)
 
-            def pop(self, key, *default):
+            def __delitem__(self, key):
                 ev.append([8, key[0], list(key[1])])
+                super().__delitem__(key)
+
+            def pop(self, key, *default):
+                # (MutableMapping.pop ends in `del self[key]`, logged by __delitem__ above)
                 # MutableMapping.pop reads self[key] first: RecomputingDict re-creates the rule by re-applying the
                 # whole pack to the classes of the key.  Its side effects on the class database (emptiness cache
                 # filled for children of candidate rules, and even NEW LABELS for foreign parents the searcher
